@@ -7,7 +7,7 @@ import os
 V = os.path.dirname(os.path.dirname(os.path.abspath(__file__)))
 
 CLAIMED = os.environ.get('CLAIMED', '').split() or [
-    'C01', 'C02', 'C03', 'C04', 'C05', 'C07', 'C08', 'C09', 'C10', 'C11', 'C12', 'C13', 'C14', 'C15', 'C16', 'C17', 'C18', 'C19', 'C20',
+    'C01', 'C02', 'C03', 'C04', 'C05', 'C06', 'C07', 'C08', 'C09', 'C10', 'C11', 'C12', 'C13', 'C14', 'C15', 'C16', 'C17', 'C18', 'C19', 'C20',
 ]
 
 TB = ("trusted: Lean 4.33 kernel; axioms propext/Classical.choice/Quot.sound only (audited per theorem each run); "
@@ -51,8 +51,8 @@ T = {
          "trimmed matrix strongly connected; mapping is an order isomorphism; renumbered = in-place restricted; csv round trip; differential runs over component-structured digraphs x 8 containers and MSM.fit",
          TB + "scipy's SCC labelling is a parameter constrained by validLabeling, evaluated on scipy's real labels for every case"),
  'C12': ("Lean theorems about the Prinz sweep over an exact field: invariants (symmetric, non-negative, row sums), c <= 0, the update is the non-negative root, a fixed sweep implies the Prinz equations, output validity; "
-         "global optimality is NOT proved (named Prop), examined numerically; Float instance of the model vs both implementations",
-         TB + "IEEE rounding, libm log, optimality of the fixed point are outside the proof"),
+         "global optimality of an exact fixed point over reversible matrices with the same support (Jensen + Prinz equations); Float instance of the model vs both implementations",
+         TB + "IEEE rounding, libm log and convergence of the loop to a fixed point within max_iter are outside the proof"),
  'C13': ("Lean theorems: per-row kernel results equal the norms (full for floats-as-rationals and int8/int16, under NoOverflow for int32/int64), strided reads equal logical reads, "
          "every interleaving of row programs gives the sequential result, validation implies in-bounds indices, outputs independent of initial buffer; fused type lists regenerated from the source; dtype x layout x thread sweeps",
          TB + "real data races / out-of-bounds accesses of the compiled object are only sampled (threads 1..16, valgrind in thorough)"),
@@ -63,7 +63,7 @@ T = {
          "window disjointness and completion-order independence of the parallel loader; HDF5 round trips and process-pool runs with injected delays",
          TB + "HDF5/PyTables node listing order, the process pool and shared memory are runtime, sampled only"),
  'C16': ("Lean theorems: fit = counts -> trim -> builder for the config passed, identity mapping when untrimmed, mapping/record round trips, sorted spectrum post-processing, |lambda| <= 1 for stochastic matrices, "
-         "implied-timescale formula, n-step propagation = T^n; differential runs over the config product, save/load, spectra",
+         "uniqueness and positivity of the stationary vector of an irreducible chain, implied-timescale formula, n-step propagation = T^n; differential runs over the config product, save/load, spectra",
          TB + "LAPACK/ARPACK and decimal I/O round trips are parameters (observed exact, not proved)"),
  'C17': ("Lean theorems: top path is a valid simple source->sink path with bottleneck flux and is widest (Dijkstra argument, closed), successive fluxes antitone, count respected, termination, "
          "sum <= outflow for the subtract scheme; exhaustive simple-path enumeration against the real code",
